@@ -310,6 +310,32 @@ func checkC02(c *core.Ctx) {
 	c.Set("rule", "actor level: ActorSys behaviours and random scenarios with stash/unstash, immediate and poison kills (turn-gated real actor system) judged by OrderMon (SendOrder, ImmediateKillOvertakes, PoisonKillAfterPrior, StashOrder). ring: every operation word over {push,pop,popmany(2),popmany(5)} of the small configuration (all initial sizes x all words of MaxOps operations, printed by TLC), TLC-simulated words of 60 operations over initial sizes 1..8 and random 3000-operation burst words around sizes 64/255/256/257/511/512 are executed on the real RingQueue; results judged by RingMon. mailbox: random scenarios with 1-4 senders x 3-14 messages, system/user mixes, handler self-sends, ring sizes 1..8 under seeded fine-grained schedules; judged by MailboxMon (SenderFIFO, SystemFirst). Non-trivial: the word crosses a growth boundary / the scenario mixes system and user messages with more than 6 deliveries.")
 	// 5. kill ordering and stash ordering on the real actor system (turn-gated), judged by OrderMon
 	asCheck(c, asPlan{prop: "C02", monitors: []string{"OrderMon"}, mc: []string{"MC_T3_" + asVariant + ".cfg"}, gen: []string{"Gen_T3S_" + asVariant + ".cfg"},
-		ops: [][2]string{{"nop", ""}, {"nop", ""}, {"stash", ""}, {"stash", ""}, {"unstash", ""}, {"kill", "@"}, {"pkill", "@"}, {"tell", "@"}, {"fail", ""},
-			{"sched-stash", ""}, {"sched-stash", ""}, {"unstash", ""}, {"tellself", ""}}})
+		ops: [][2]string{{"nop", ""}, {"nop", ""}, {"stash", ""}, {"stash", ""}, {"stash", ""}, {"unstash", ""}, {"kill", "@"}, {"pkill", "@"}, {"tell", "@"}, {"fail", ""},
+			{"sched-stash", ""}, {"sched-stash", ""}, {"unstash", "1"}, {"unstash", "3"}, {"tellself", ""}},
+		directed: asStashBatches})
+}
+
+// asStashBatches: k messages are stashed, Unstash(n) gives back a part of them (every n from 1 to k over the runs), more
+// messages are stashed on top, the rest comes back in further batches.
+func asStashBatches(rng *rand.Rand) (*asScenario, []asStep) {
+	par := map[string]string{"t": "root", "a": "t", "b": "t"}
+	sc := &asScenario{Parent: par, Names: []string{"a", "b", "t"}, Cfg: asConfig{Decision: map[string]string{}, Strategy: map[string]string{}}}
+	for _, n := range sc.Names {
+		sc.Cfg.Decision[n] = "resume"
+		sc.Cfg.Strategy[n] = "ofo"
+	}
+	k := 2 + rng.Intn(8)
+	steps := []asStep{{A: "spawn", X: "t"}, {A: "settle"}}
+	for i := 0; i < k; i++ {
+		steps = append(steps, asStep{A: "tell", X: "a", Op: "stash"})
+	}
+	steps = append(steps, asStep{A: "settle"}, asStep{A: "tell", X: "a", Op: "unstash", Arg: fmt.Sprint(1 + rng.Intn(k))}, asStep{A: "settle"})
+	for i := 0; i < rng.Intn(3); i++ {
+		steps = append(steps, asStep{A: "tell", X: "a", Op: "stash"})
+	}
+	for i := 0; i < 3; i++ {
+		steps = append(steps, asStep{A: "tell", X: "a", Op: "unstash", Arg: fmt.Sprint(1 + rng.Intn(k))}, asStep{A: "settle"})
+	}
+	steps = append(steps, asStep{A: "tell", X: "a", Op: "unstash", Arg: "100"}, asStep{A: "settle"})
+	return sc, steps
 }
